@@ -443,8 +443,12 @@ func checkImage(j job) (res result) {
 		res.H = -1
 		class := "other"
 		switch {
-		case strings.Contains(openErr, "could not open manifest file"):
+		case strings.Contains(openErr, "could not open manifest file") && markerWithoutManifest(j.Img):
+			// exactly: the newest manifest marker's directory entry survived, the entry of the
+			// MANIFEST file it names did not, and pebble.Open fails on the missing file
 			class = "manifest-named-by-marker-is-missing"
+		case strings.Contains(openErr, "could not open manifest file"):
+			class = "manifest-unreadable"
 		case strings.Contains(openErr, "PANIC"):
 			class = "panic"
 		case strings.HasPrefix(openErr, "Fatal"):
@@ -495,6 +499,30 @@ func checkImage(j job) (res result) {
 		viol("reopen-fails", "Fatal logged while reading/continuing: "+f)
 	}
 	return
+}
+
+// markerWithoutManifest reports whether, in the image, the newest pebble manifest marker
+// (marker.manifest.<iter>.MANIFEST-<n>) names a MANIFEST-<n> that is not in the directory.
+func markerWithoutManifest(im *image) bool {
+	best, named := "", ""
+	for p := range im.Files {
+		base := strings.TrimPrefix(p, dbDir+"/")
+		if base == p || !strings.HasPrefix(base, "marker.manifest.") {
+			continue
+		}
+		parts := strings.SplitN(base, ".", 4) // marker, manifest, <iter>, <file name>
+		if len(parts) != 4 {
+			continue
+		}
+		if parts[2] > best { // fixed-width decimal iteration numbers
+			best, named = parts[2], parts[3]
+		}
+	}
+	if named == "" {
+		return false
+	}
+	_, present := im.Files[dbDir+"/"+named]
+	return !present
 }
 
 // ---------------------------------------------------------------------------------------
